@@ -701,8 +701,8 @@ struct Engine {
         uintmax_t c[] = {0, sz, a.prev.cap, a.prev.cap + 1, I::kN, I::kN + 1, sz + rng.below(10)};
         uintmax_t n = std::min<uintmax_t>(c[rng.below(7)], I::kFixed ? I::kN : std::min<uintmax_t>(I::limit(), 60));
         // now and then a capacity that does not fit an 8-bit size_type (matters for swap2 with a partner of a narrower size_type)
-        if (rng.chance(1, 8) && !I::kFixed && I::limit() >= 300) n = 300;
-        set_op("reserve", sta, n <= a.prev.cap ? "within" : n == 300 ? "beyond-8bit" : "beyond", fmt("P%d n=%ju", ai, n));
+        if (rng.chance(1, 8) && !I::kFixed && I::limit() >= 200) n = I::limit() >= 300 ? 300 : 200;  // beyond an unsigned / a signed 8-bit size_type
+        set_op("reserve", sta, n <= a.prev.cap ? "within" : n >= 200 ? "beyond-8bit" : "beyond", fmt("P%d n=%ju", ai, n));
         oi.point = sz;
         if (n > a.prev.cap) oi.grow_ok |= bitP(ai);  // an explicit request for more capacity reallocates although the size fits
         window([&] { v.reserve(static_cast<SizeT>(n)); });
@@ -1155,8 +1155,8 @@ struct Engine {
       }
       case 6: {
         uintmax_t n = std::min<uintmax_t>(sz + rng.below(6), VI::kFixed ? VI::kN : std::min<uintmax_t>(VI::limit(), 60));
-        if (rng.chance(1, 4) && !VI::kFixed && VI::limit() >= 300) n = 300;
-        set_op("partner:reserve", sta, n == 300 ? "beyond-8bit" : "-", fmt("%s n=%ju", pname, n));
+        if (rng.chance(1, 4) && !VI::kFixed && VI::limit() >= 200) n = VI::limit() >= 300 ? 300 : 200;
+        set_op("partner:reserve", sta, n >= 200 ? "beyond-8bit" : "-", fmt("%s n=%ju", pname, n));
         oi.point = sz;
         if (n > s.prev.cap) oi.grow_ok |= 1u << gid;
         window([&] { v.reserve(static_cast<typename VI::size_type>(n)); });
